@@ -57,6 +57,9 @@ def reallocate_unphased(edges_likelihood, mutations_phase, mutations_block, bloc
         assert tskit.NULL < j < num_edges
         assert edges_unphased[j]
         if np.isnan(mutations_phase[m]):  # TODO: fix rare numerical issue
+            # the phase could not be estimated: the singleton stays on the first
+            # edge of its block, where it is placed, and still counts once
+            edges_likelihood[i, 0] += 1.0
             continue
         assert 0.0 <= mutations_phase[m] <= 1.0
         edges_likelihood[i, 0] += mutations_phase[m]
